@@ -139,6 +139,7 @@ func (m *selMonitor) check(where string) (string, string) {
 	sentElsewhere := map[[stun.TransactionIDSize]byte]reqInfo{} // to the same remote address from another local socket
 	validated, validatedWithUse, nominatedHere := false, false, false
 	crossValidated, crossValidatedWithUse := false, false
+	trailingNomination := false // an authentic request on this pair had USE-CANDIDATE / a nomination value appended behind MESSAGE-INTEGRITY
 	for _, e := range log {
 		switch {
 		case e.kind == "emit" && e.side == m.ag.side && e.d.msg != nil && e.d.msg.class == stun.ClassRequest && e.d.src == s && e.d.dst == raddr:
@@ -163,6 +164,9 @@ func (m *selMonitor) check(where string) (string, string) {
 			if e.d.msg.class == stun.ClassRequest && (e.d.msg.useCand || e.d.msg.nomination != nil) && m.authRequest(e.d) {
 				nominatedHere = true
 			}
+			if e.d.msg.class == stun.ClassRequest && e.d.msg.trailingUse && m.authRequest(e.d) {
+				trailingNomination = true
+			}
 		}
 	}
 	desc := fmt.Sprintf("%s: agent %c (controlling=%v lite=%v) selected %s", where, 'A'+m.ag.side, controlling, m.ag.lite, key)
@@ -170,6 +174,9 @@ func (m *selMonitor) check(where string) (string, string) {
 		return "", ""
 	}
 	switch {
+	case !controlling && !nominatedHere && trailingNomination:
+		// D43 (known finding): attributes behind MESSAGE-INTEGRITY are honoured
+		return "C03/selected/use-candidate-behind-message-integrity", desc + " on a USE-CANDIDATE (or nomination value) that was appended behind MESSAGE-INTEGRITY of an authentic ordinary check — the nomination itself is not authenticated"
 	case m.ag.lite && !controlling:
 		if !nominatedHere {
 			return "C03/lite/selected-without-authenticated-nomination", desc + " but no authenticated nomination was delivered on that pair"
@@ -208,6 +215,10 @@ func (m *selMonitor) check(where string) (string, string) {
 		}
 		if !valued {
 			po, pn := m.prioOf(prev), m.prioOf(cur)
+			if pn.Cmp(po) < 0 && trailingNomination {
+				// D43 (known finding): a nomination value behind MESSAGE-INTEGRITY is taken for a renomination
+				return "C03/selected/use-candidate-behind-message-integrity", fmt.Sprintf("%s on a nomination that was appended behind MESSAGE-INTEGRITY of an authentic ordinary check; previous %s had priority %s, new one %s", desc, pairKey(prev), po, pn)
+			}
 			if pn.Cmp(po) < 0 {
 				return "C03/plain-nomination/moved-to-lower-priority", fmt.Sprintf("%s; previous %s had priority %s, new one %s", desc, pairKey(prev), po, pn)
 			}
@@ -392,9 +403,15 @@ func (s *soloSim) answer(d *simDgram, from *simSock) {
 
 // peerRequest sends an authentic Binding request from endpoint ep to agent socket to.
 func (s *soloSim) peerRequest(ep, to *simSock, useCand bool, nomination *uint32, prio uint32, role string, tiebreaker uint64) {
+	s.peerRequestTrailing(ep, to, useCand, nomination, prio, role, tiebreaker, nil)
+}
+
+// peerRequestTrailing: the same authentic request with attributes appended behind MESSAGE-INTEGRITY (by anybody
+// on the path: no password is needed), FINGERPRINT recomputed.
+func (s *soloSim) peerRequestTrailing(ep, to *simSock, useCand bool, nomination *uint32, prio uint32, role string, tiebreaker uint64, trailing []stun.Setter) {
 	req := simBuildRequest(simReqOpts{
 		username: s.ag.ufrag + ":" + s.peer.ufrag, key: s.ag.pwd, role: role, tiebreaker: tiebreaker,
-		useCand: useCand, nomination: nomination, priority: prio, fingerprint: true,
+		useCand: useCand, nomination: nomination, priority: prio, fingerprint: true, trailing: trailing,
 	})
 	s.inject(ep, to, req.Raw)
 }
@@ -512,8 +529,18 @@ func TestVerif_C03_MisbehavingPeer(t *testing.T) {
 						lbl["use-candidate-while-selected"] = true
 					}
 				}
-				s.peerRequest(ep, to, use, nil, prio, peerRole, 12345)
-				s.ops = append(s.ops, fmt.Sprintf("peerRequest(%s→%s use=%v prio=%d)", ep.name(), to.name(), use, prio))
+				var trailing []stun.Setter
+				if !use && rapid.IntRange(0, 3).Draw(rt, "useCandidateBehindIntegrity") == 0 {
+					// an ordinary authentic check to which somebody appended USE-CANDIDATE (or a nomination value)
+					// behind MESSAGE-INTEGRITY: it is the ordinary check it authentically is
+					trailing = []stun.Setter{UseCandidate()}
+					if rapid.Bool().Draw(rt, "withNominationValue") {
+						trailing = append(trailing, Nomination(7))
+					}
+					lbl["use-candidate-behind-integrity"] = true
+				}
+				s.peerRequestTrailing(ep, to, use, nil, prio, peerRole, 12345, trailing)
+				s.ops = append(s.ops, fmt.Sprintf("peerRequest(%s→%s use=%v prio=%d trailing=%d)", ep.name(), to.name(), use, prio, len(trailing)))
 			case "answer", "dupAnswer":
 				reqs := s.agentRequests()
 				if len(reqs) == 0 {
